@@ -394,6 +394,7 @@ static int do_read(const tspec_t* f, const char* path, const char* mode, int arm
     return bad;
 }
 
+static int g_intended_ok = -1;   /* fault-free batch run: every batch equals the intended page (1), a difference (0) */
 static int g_proj = 0;  /* batchidx / batchname: column projection by index / by name */
 static int g_big = 0;   /* readbig / batchbig: one call (one batch) spans all pages of a row group */
 /* column reader API, ONE read call for all pages of a column chunk.  Every returned value - in particular every
@@ -563,12 +564,33 @@ static int do_batch(const tspec_t* f, const char* path, const char* mode, int ar
                         for (int64_t j = 0; j < nn; j++) { *eff = fnv(*eff, &ba[j].length, 4); if (ba[j].length > 0 && ba[j].data) *eff = fnv(*eff, ba[j].data, (size_t)ba[j].length); } }
                     else *eff = fnv(*eff, data, (size_t)nn * type_size(t));
                 } else if (nv > 0) *eff = fnv(*eff, "nodata", 6);
+                /* fault-free run, one page per batch: the batch must be the intended page - null bitmap bit for bit (a
+                 * set bit marks a null) and the non-null values in order */
+                if (SH->fail_at == 0 && !g_big && g_intended_ok != 0) {
+                    int g = i / f->npages, pg = i % f->npages;
+                    int16_t* idef = __real_malloc(2 * (size_t)f->rpp); uint8_t* ivals = __real_malloc(16 * (size_t)f->rpp); char* istrs = __real_malloc(24 * (size_t)f->rpp);
+                    int inv = gen_page(f, g, pg, proj[c], ivals, idef, istrs);
+                    int good = (nv == f->rpp) && nb && data;
+                    for (int j = 0; good && j < f->rpp; j++) {
+                        int isnull = type_optional(t) ? (idef[j] == 0) : 0;
+                        if (((nb[j / 8] >> (j % 8)) & 1) != isnull) good = 0;
+                    }
+                    if (good && (int64_t)inv != nn) good = 0;
+                    if (good) {
+                        if (type_base(t) == 'b') { const carquet_byte_array_t* ba = data; const carquet_byte_array_t* ib = (const carquet_byte_array_t*)ivals;
+                            for (int j = 0; good && j < inv; j++) if (ba[j].length != ib[j].length || memcmp(ba[j].data, ib[j].data, (size_t)ib[j].length)) good = 0; }
+                        else if (memcmp(data, ivals, (size_t)inv * type_size(t))) good = 0;
+                    }
+                    g_intended_ok = good ? 1 : 0;
+                    free(idef); free(ivals); free(istrs);
+                }
             }
             if (armed) ARM();
             carquet_row_batch_free(b);
             DISARM();
         }
     }
+    if (SH->fail_at == 0 && !g_big && !bad) g_readback = g_intended_ok;
     if (armed) ARM();
     carquet_batch_reader_free(br);
     DISARM();
